@@ -606,6 +606,15 @@ def ordering_rule(A: Analysis, col: Collector, rule: str):
                     ok = True
                 elif key is not None and any(q.endswith("hash_single") or q.endswith("hash_object") for k in ast.walk(key) if isinstance(k, ast.Call) for q in A.callee_names(k, f)):
                     ok = True
+        # list of serialised hashes sorted in place: `xs = [hash_single(v) for v in obj]; xs.sort()`
+        if not ok and not why:
+            for n in walk_own(f.node):
+                if isinstance(n, ast.Assign) and isinstance(n.targets[0], ast.Name) and isinstance(n.value, (ast.ListComp, ast.GeneratorExp)) and any(isinstance(g.iter, ast.Name) and g.iter.id == param for g in n.value.generators) and any(q.endswith("hash_single") or q.endswith("bytes_repr") or q.endswith("hash_object") for k in ast.walk(n.value.elt) if isinstance(k, ast.Call) for q in A.callee_names(k, f)):
+                    lst = n.targets[0].id
+                    sorted_in_place = any(isinstance(c.func, ast.Attribute) and c.func.attr == "sort" and isinstance(c.func.value, ast.Name) and c.func.value.id == lst and kwarg(c, "key") is None for c in A.calls(f))
+                    sorted_copy = any(isinstance(c.func, ast.Name) and c.func.id == "sorted" and c.args and isinstance(c.args[0], ast.Name) and c.args[0].id == lst and kwarg(c, "key") is None for c in A.calls(f))
+                    if sorted_in_place or sorted_copy:
+                        ok = True
         if why:
             ok = False
         if ok:
